@@ -720,6 +720,22 @@ class TmplGen:
           for other in r.sample([x for x in FAMILY if x != c[1]], r.randint(1, 2)):
             cands.insert(r.below(len(cands) + 1), ['obj', other] + c[2:])
           break
+    if cand_ty == 'any' and r.chance(0.25):
+      # dict candidates whose key sets are subsets of each other ({'a': 1} before / after {'a': 1, 'b': 2}):
+      # a dict candidate must not match a value that has additional keys
+      sup = None
+      for c in cands:
+        if c[0] == 'dict' and len(c[1]) >= 2 and not all_tags(c):
+          sup = c
+          break
+      if sup is None:
+        k0, k1 = self.const('any'), self.const('any')
+        sup = ['dict', ['a0', 'a1'], [k0, k1]]
+        cands.insert(r.below(len(cands) + 1), sup)
+      n_keep = r.randint(1, len(sup[1]) - 1)
+      sub = ['dict', sup[1][:n_keep], sup[2][:n_keep]]
+      at = cands.index(sup)
+      cands.insert(at if r.chance(0.7) else at + 1, sub)      # mostly *before* its superset
     if one:
       return ['choice', self.fresh_tag(), True, 1, cands, True, False]
     distinct, sorted_ = r.chance(0.5), r.chance(0.5)
